@@ -730,7 +730,9 @@ static void record_case(Builder& B, bool oas, const std::string& gid, const std:
             std::vector<V> got;
             for (uint64_t i = 0; i < fp->spine.point_array.count; i++) got.push_back(tov(fp->spine.point_array[i]));
             ld dev = poly_dev(got, C.pts);
-            ld lim = 3 * (ld)B.tol + 3e-3L;
+            // the intersection search at a junction stops once the two curve points are within tol of each other; at a
+            // shallow kink that point is a few tol away from the crossing itself; 3e-3 = database grid of the file
+            ld lim = 8 * (ld)B.tol + 3e-3L;
             if (getenv("C08_TRACE")) {
                 fprintf(stderr, " element %d record centre (read back):", (int)e);
                 for (auto& p : got) fprintf(stderr, " (%.4Lf,%.4Lf)", p.x, p.y);
